@@ -89,10 +89,13 @@ func (t WebsocketTransport) startReader() {
 		for {
 			_, reader, err := t.wsConn.Reader(t.closeCtx)
 			if err != nil {
+				// The connection is gone: wake up Read, which would otherwise wait for data for ever
+				t.closeFunc()
 				return
 			}
 			n, err := reader.Read(buffer)
 			if err != nil && err != io.EOF {
+				t.closeFunc()
 				return
 			}
 			if n > 0 {
@@ -133,6 +136,16 @@ func (t WebsocketTransport) Ping() error {
 }
 
 func (t *WebsocketTransport) Read(p []byte) (int, error) {
+	// What was received before the connection was lost is delivered first
+	select {
+	case data := <-t.queue:
+		if t.logFile != nil && len(data) > 0 {
+			_, _ = fmt.Fprintf(t.logFile, "RECV:\n%s\n\n", data)
+		}
+		copy(p, data)
+		return len(data), nil
+	default:
+	}
 	select {
 	case <-t.closeCtx.Done():
 		return 0, t.closeCtx.Err()
